@@ -1,4 +1,4 @@
-import N2k.Lemmas.TextRound
+import N2k.Lemmas.TextUcs
 /-!
 # C16 — Text fields never overrun a buffer and round-trip their content
 
@@ -114,7 +114,111 @@ example : (7 : Nat) + 1 ≤ 8 := by decide
 
 /-- Why the unsized `GetStr` needs `Length+1` bytes: with exactly `Length` bytes it writes one byte too far. -/
 theorem C16_getStr1_contract_witness :
-    (getStr1 ⟨fun _ => 0x41, 3⟩ 2 (fun _ => 1) 2 0).toOption.isNone = true := by
+    (getStr1 ⟨fun _ => 0x41, 3⟩ 2 (fun _ => 1) 2 0).toOption.isNone = true ∧
+    (match getStr1 ⟨fun _ => 0x41, 3⟩ 2 (fun _ => 1) 2 0 with
+      | .error (.destWrite 2 2) => True
+      | _ => False) := by
+  exact ⟨rfl, trivial⟩
+
+/-! ## round trips
+
+`textOf n dst` is the C string in a destination of `n` bytes (the bytes before its first NUL). -/
+
+/-- **C16_roundtrip_fixed.** Text free of NUL and of the padding character 0xff, added with `AddStr` (default
+fill) into a field of `max` bytes that fits the payload and read with `GetStr(size, buf, max, 0xff, Index)`
+into any non-empty destination, comes back as the text cut to the field (`max`) and to the destination (`n-1`). -/
+theorem C16_roundtrip_fixed (s : List Nat) (hs : ∀ b ∈ s, b ≠ 0 ∧ b ≠ 0xff) (fill max n : Nat) (d dst : D)
+    (hfit : fill + max ≤ MaxDataLen) (hn : 0 < n) :
+    ∃ m' dst', addStr ⟨d, fill⟩ (.at s) max 0xff = .ok m' ∧ m'.len = fill + max ∧
+      getStr2 m' n dst max 0xff fill = .ok (true, fill + max, dst') ∧
+      textOf n dst' = (s.take max).take (n - 1) :=
+  rt_str s hs fill max n d dst hfit hn
+
+example : (∀ b ∈ [0x41, 0x42], b ≠ 0 ∧ b ≠ 0xff) ∧ (3 : Nat) + 20 ≤ MaxDataLen ∧ 0 < 8 := by decide
+
+/-- **C16_roundtrip_ais.** Text free of NUL and of '@', added with `AddAISStr` at ANY fill level with ANY
+maximum and read with `GetStr(size, buf, <bytes added>, '@', Index)`: every character comes back upper-cased,
+characters outside 0x20..0x5F replaced by '?', cut to the field (`min max free`) and the destination. -/
+theorem C16_roundtrip_ais (s : List Nat) (hs : ∀ b ∈ s, b ≠ 0 ∧ b ≠ 0x40) (fill max n : Nat) (d dst : D)
+    (hfill : fill ≤ MaxDataLen) (hn : 0 < n) :
+    ∃ m' dst', addAISStr ⟨d, fill⟩ (.at s) max = .ok m' ∧ m'.len = fill + min max (MaxDataLen - fill) ∧
+      getStr2 m' n dst (m'.len - fill) 0x40 fill = .ok (true, m'.len, dst') ∧
+      textOf n dst' = ((s.take (min max (MaxDataLen - fill))).map aisChar).take (n - 1) :=
+  rt_ais s hs fill max n d dst hfill hn
+
+/-- what "upper-cased, out-of-alphabet replaced" means, on every byte -/
+theorem C16_aisChar_spec (b : Nat) :
+    aisChar b = (if 0x61 ≤ b ∧ b ≤ 0x7A then b - 0x20 else if 0x20 ≤ b ∧ b ≤ 0x5F then b else 0x3F) := by
+  simp only [aisChar]
+  split <;> split <;> (try split) <;> omega
+
+/-- **C16_roundtrip_var_ascii.** ASCII text (1..0x7F) through `AddVarStr` (any policy, any unit, any maximum,
+ANY fill level) and `GetVarStr` comes back unchanged, cut to the maximum, to the free payload behind the
+2-byte header, and to the destination. -/
+theorem C16_roundtrip_var_ascii (s : List Nat) (hs : ∀ b ∈ s, b ≠ 0 ∧ b < 0x80) (fill maxLen n : Nat)
+    (uni chars : Bool) (d dst : D) (hfill : fill ≤ MaxDataLen) (hn : 0 < n) :
+    ∃ m' r sz idx' dst', addVarStr ⟨d, fill⟩ (.at s) maxLen uni chars = .ok m' ∧
+      getVarStr m' n dst 0xff fill = .ok (r, sz, idx', dst') ∧
+      textOf n dst' = (s.take (min maxLen (MaxDataLen - fill - 2))).take (n - 1) := by
+  by_cases h : fill + 2 ≤ MaxDataLen
+  · obtain ⟨m', r, sz, idx', dst', h1, _, h2, h3⟩ := rt_var_ascii s hs fill maxLen n uni chars d dst h hn
+    exact ⟨m', r, sz, idx', dst', h1, h2, h3⟩
+  · obtain ⟨m', r, sz, idx', dst', h1, h2, h3⟩ := rt_var_tiny s fill maxLen n uni chars d dst hfill (by omega) hn
+    refine ⟨m', r, sz, idx', dst', h1, h2, ?_⟩
+    have : MaxDataLen - fill - 2 = 0 := by omega
+    rw [h3, this]; simp
+
+/-- **C16_roundtrip_var_unicode.** Well-formed UTF-8 text (`utf8 cs`: non-NUL ASCII, non-overlong 2- and 3-byte
+sequences, 4-byte sequences) containing at least one multi-byte character, through `AddVarStr` with unicode
+support (any unit, any maximum, ANY fill level) and `GetVarStr`: stored as UCS-2 (type 0) and read back as the
+same bytes — 2- and 3-byte sequences preserved, every 4-byte sequence (beyond the BMP) replaced by '?' — cut to
+whole characters: as many as fit the maximum / the free payload at two bytes each, then as many as fit `n-1`
+destination bytes. -/
+theorem C16_roundtrip_var_unicode (cs : List Chr) (hwf : ∀ c ∈ cs, c.WF) (hmb : ∃ c ∈ cs, c.isAscii = false)
+    (fill maxLen n : Nat) (chars : Bool) (d dst : D) (hfill : fill ≤ MaxDataLen) (hn : 0 < n) :
+    ∃ m' r sz idx' dst', addVarStr ⟨d, fill⟩ (.at (utf8 cs)) maxLen true chars = .ok m' ∧
+      getVarStr m' n dst 0xff fill = .ok (r, sz, idx', dst') ∧
+      textOf n dst' = (fitPrefix (n - 1) (cs.take (min cs.length
+        ((min (MaxDataLen - fill - 2) (if chars then maxLen * 2 else maxLen)) / 2)))).flatMap Chr.back := by
+  by_cases h : 2 < MaxDataLen - fill
+  · obtain ⟨m', r, sz, idx', dst', h1, _, h2, h3⟩ := rt_var_unicode cs hwf hmb fill maxLen n chars d dst h hn
+    exact ⟨m', r, sz, idx', dst', h1, h2, h3⟩
+  · obtain ⟨m', r, sz, idx', dst', h1, h2, h3⟩ :=
+      rt_var_tiny (utf8 cs) fill maxLen n true chars d dst hfill (by omega) hn
+    refine ⟨m', r, sz, idx', dst', h1, h2, ?_⟩
+    have : MaxDataLen - fill - 2 = 0 := by omega
+    rw [h3, this]; simp [fitPrefix]
+
+/-- **C16_roundtrip_var_forceascii.** The same text into an ASCII-only field (`vss_ForceASCII`): ASCII
+characters unchanged, every multi-byte character stored and read back as one '?'. -/
+theorem C16_roundtrip_var_forceascii (cs : List Chr) (hwf : ∀ c ∈ cs, c.WF) (hmb : ∃ c ∈ cs, c.isAscii = false)
+    (fill maxLen n : Nat) (chars : Bool) (d dst : D) (hfill : fill ≤ MaxDataLen) (hn : 0 < n) :
+    ∃ m' r sz idx' dst', addVarStr ⟨d, fill⟩ (.at (utf8 cs)) maxLen false chars = .ok m' ∧
+      getVarStr m' n dst 0xff fill = .ok (r, sz, idx', dst') ∧
+      textOf n dst' = ((cs.take (min maxLen (MaxDataLen - fill - 2))).map Chr.asc).take (n - 1) := by
+  by_cases h : 2 < MaxDataLen - fill
+  · obtain ⟨m', r, sz, idx', dst', h1, _, h2, h3⟩ := rt_var_forceascii cs hwf hmb fill maxLen n chars d dst h hn
+    exact ⟨m', r, sz, idx', dst', h1, h2, h3⟩
+  · obtain ⟨m', r, sz, idx', dst', h1, h2, h3⟩ :=
+      rt_var_tiny (utf8 cs) fill maxLen n false chars d dst hfill (by omega) hn
+    refine ⟨m', r, sz, idx', dst', h1, h2, ?_⟩
+    have : MaxDataLen - fill - 2 = 0 := by omega
+    rw [h3, this]; simp
+
+/-- the hypotheses are satisfiable, and the statements compute: "é€A😀" is `C3 A9 · E2 82 AC · 41 · F0 9F 98 80` -/
+example :
+    let cs := [Chr.two 3 41, Chr.three 2 2 44, Chr.a 0x41, Chr.four 0 31 24 0]
+    (∀ c ∈ cs, c.WF) ∧ (∃ c ∈ cs, c.isAscii = false) ∧
+    utf8 cs = [0xC3, 0xA9, 0xE2, 0x82, 0xAC, 0x41, 0xF0, 0x9F, 0x98, 0x80] ∧
+    cs.flatMap Chr.back = [0xC3, 0xA9, 0xE2, 0x82, 0xAC, 0x41, 0x3F] := by
+  simp [Chr.WF, Chr.isAscii, utf8, Chr.bytes, Chr.back]
+
+/-- the model itself, run on that text with a 20-byte destination -/
+example :
+    (do let m ← addVarStr ⟨fun _ => 0xAA, 5⟩ (.at [0xC3, 0xA9, 0xE2, 0x82, 0xAC, 0x41, 0xF0, 0x9F, 0x98, 0x80]) 255 true false
+        let r ← getVarStr m 20 (fun _ => 0xCD) 0xff 5
+        pure (m.len, textOf 20 r.2.2.2))
+      = .ok (15, [0xC3, 0xA9, 0xE2, 0x82, 0xAC, 0x41, 0x3F]) := by
   rfl
 
 end N2k.C16
